@@ -154,7 +154,11 @@ def instrument(ov, mods):
     exports = os.path.join(BUILD, "exports-%s.txt" % CMD[0])
     with open(exports, "w") as f:
         f.write(out)
-    pk = run(["go", "list"] + MODFILE + ["-overlay", ovfile, "-f", "{{.ImportPath}} {{.Dir}} {{range .GoFiles}}{{.}},{{end}}"] + INSTRUMENTED,
+    deps = set(l.split(" ")[0] for l in out.splitlines())
+    todo = [p for p in INSTRUMENTED if p in deps]
+    if not todo:
+        return ov
+    pk = run(["go", "list"] + MODFILE + ["-overlay", ovfile, "-f", "{{.ImportPath}} {{.Dir}} {{range .GoFiles}}{{.}},{{end}}"] + todo,
              cwd=HARNESS)
     for line in pk.strip().splitlines():
         path, d, files = line.split(" ")
